@@ -225,6 +225,7 @@ func init() {
 		// order (every non-empty subset), a first child that undeclares the default (xmlns=""), overrides a prefix, does
 		// both or neither, then a later sibling with a grandchild - the parent's list and what the later sibling inherits
 		// must not depend on what the first child did
+		var streams [][]Event
 		decl := map[string]Event{"": {K: "ns", Lo: ch(""), V: uriU1}, "p": {K: "ns", Lo: ch("p"), V: uriU1}, "q": {K: "ns", Lo: ch("q"), V: uriU2}}
 		for _, order := range [][]string{{""}, {"p"}, {"", "p"}, {"p", ""}, {"", "p", "q"}, {"p", "", "q"}, {"p", "q", ""}, {"q", "p"}, {"", "q"}, {"q", ""}} {
 			for childDoes := 0; childDoes < 8; childDoes++ {
@@ -255,7 +256,7 @@ func init() {
 					Event{K: "comment", V: ch("c")},
 					// processing instructions whose target merely begins with x-m-l are ordinary nodes
 					Event{K: "pi", Lo: ch("xml-stylesheet"), V: ch("h")}, Event{K: "end"}, Event{K: "pi", Lo: ch("XMLthing"), V: ch("d")})
-				writeTrace(storeTraceLine(out))
+				streams = append(streams, out)
 			}
 		}
 		for i := 0; i < a.n; i++ {
@@ -278,7 +279,13 @@ func init() {
 					out = append(out, Event{K: "comment", V: ch("late")})
 				}
 			}
-			writeTrace(storeTraceLine(out))
+			streams = append(streams, out)
+		}
+		// VERIF_PARSE_CONC > 1: that many goroutines build trees at once (each from its own stream); the lines are written in order
+		lines := make([]any, len(streams))
+		parallelDo(len(streams), parseConc(), func(i int) { lines[i] = storeTraceLine(streams[i]) })
+		for _, l := range lines {
+			writeTrace(l)
 		}
 		return 0
 	}
